@@ -83,6 +83,8 @@ fn kind_name(op: &Op) -> &'static str {
         Op::TeardownCalls { .. } => "TeardownCalls",
         Op::LocalBurst { .. } => "LocalBurst",
         Op::HoldChild => "HoldChild",
+        Op::EventNew { .. } => "EventNew",
+        Op::AddEventFrom { .. } => "AddEventFrom",
         Op::Collect { .. } => "Collect",
         Op::UnwindScope { .. } => "UnwindScope",
         Op::ScopeBurst { .. } => "ScopeBurst",
